@@ -48,6 +48,8 @@ type VerifC10RawObs struct {
 	Running   bool   `json:"running"`
 	Late      string `json:"late"`
 	LateCbs   int    `json:"lateCbs"`
+	CbsCall   [][]int `json:"cbsCall"` // what each callback saw when it was called (Cbs: what it holds at the end)
+	Shared    bool    `json:"shared,omitempty"`
 }
 
 var verifC10TooLargeRE = regexp.MustCompile(`message size of (-?\d+) bytes, but should not exceed`)
@@ -145,6 +147,7 @@ func VerifC10RawOut(spec VerifC10RawSpec) VerifC10RawObs {
 	cr := runner.(*clientProcessRunner) //nolint:forcetypeassert
 	defer func() { go runner.stop() }()
 	var mu sync.Mutex
+	var kept []verifC10Kept
 	var firstErr error
 	sent := make(chan struct{})
 	go func() {
@@ -158,15 +161,15 @@ func VerifC10RawOut(spec VerifC10RawSpec) VerifC10RawObs {
 					v = -3
 				}
 				if err == nil {
-					v = -2
-					if resp != nil && name == want && resp.GetTestName() == name {
-						if p := resp.GetResponse().GetPayloads(); len(p) == 1 && string(p[0].GetData()) == name {
-							v = i
-						}
-					}
+					v = verifC10RespCode(want, name, resp)
 				}
 				mu.Lock()
 				obs.Cbs[i] = append(obs.Cbs[i], v)
+				if err == nil {
+					kept = append(kept, verifC10Kept{i: i, name: name, resp: resp, vCall: v})
+				} else {
+					kept = append(kept, verifC10Kept{i: i, name: name, vCall: v})
+				}
 				if err != nil && firstErr == nil {
 					var fr *failedToGetResultError
 					if errors.As(err, &fr) {
@@ -189,10 +192,16 @@ func VerifC10RawOut(spec VerifC10RawSpec) VerifC10RawObs {
 		out.Hang = hang
 		out.ErrClass = verifC10ErrClass(firstErr)
 		out.Rets = append([]string{}, obs.Rets...)
+		if hang == "" {
+			// everything has ended: what do the callbacks hold now?
+			out.Cbs, out.CbsCall, out.Shared = verifC10Settle(len(obs.Cbs), kept, VerifC10Name)
+			return out
+		}
 		out.Cbs = make([][]int, len(obs.Cbs))
 		for i := range obs.Cbs {
 			out.Cbs[i] = append([]int{}, obs.Cbs[i]...)
 		}
+		out.CbsCall = out.Cbs
 		return out
 	}
 	dog := VerifNewDog(10)
